@@ -11,6 +11,8 @@ Definition sc_input_closed : N := 32%N.
 Definition sc_close_tag : bytes := hex "3c2f73747265616d3a73747265616d3e".
 Definition sc_close_ws_tag : bytes := hex "3c636c6f736520786d6c6e733d2275726e3a696574663a706172616d733a786d6c3a6e733a786d70702d6672616d696e67222f3e".
 Definition sc_send_records_opening_element : bool := true.
+Definition sc_reader_ws_close_is_eof : bool := true.
+Definition sc_negotiator_records_ws : bool := true.
 
 (* ---- session.go: who takes the output lock, and who of them tests the closed bit after taking it ---- *)
 Definition sc_out_lockers : list bytes := [hex "53657373696f6e2e436c6f7365" (* Session.Close *); hex "53657373696f6e2e456e636f6465" (* Session.Encode *); hex "53657373696f6e2e456e636f6465456c656d656e74" (* Session.EncodeElement *); hex "53657373696f6e2e546f6b656e577269746572" (* Session.TokenWriter *); hex "53657373696f6e2e73656e644572726f72" (* Session.sendError *); hex "73656e64" (* send *)].
